@@ -21,12 +21,16 @@
 (* the post-processing step, then every group is opened normally.          *)
 (*                                                                         *)
 (* Impl constants (what the code does where the property cares):           *)
-(*   DupHeads "crash": a second heads file for a group whose heads are     *)
+(*   DupHeads "skip": heads a log already holds are not fetched again      *)
+(*            (code since the fix `loadHeads only fetches the heads the    *)
+(*            log does not hold yet`)                                      *)
+(*            "crash": a second heads file for a group whose heads are     *)
 (*            already loaded makes loadHeads hand nil entries to the       *)
-(*            replicator -> nil dereference in a goroutine (code as found) *)
-(*            "skip": heads already in the log are skipped                 *)
+(*            replicator -> nil dereference in a goroutine (code before)   *)
 (*   KeyCheck "none": any 64 raw bytes are accepted as a private key       *)
-(*            (code as found: libp2p does not compare the two halves)      *)
+(*            (the code: libp2p does not compare the two halves; a damaged *)
+(*            key file may be imported as some other identity - the        *)
+(*            property does not speak about damaged key files)             *)
 (*            "pair": the public half must belong to the seed              *)
 (***************************************************************************)
 EXTENDS Naturals, Sequences, FiniteSets, TLC
@@ -220,10 +224,12 @@ SameRestore == (IsRestore /\ Unmutated) =>
                   /\ \A g \in arch.open : res.r.g[g] = arch.n[g]
 \* named damage is rejected
 Rejected == (IsRestore /\ (BadEntry(res.fed.files) \/ ~KeyCountOK(res.fed.files) \/ res.fed.used)) => res.r.out = "err"
-\* any other damage: no crash, and never a silently different state
+\* any other damage: no crash; dropped / duplicated / reordered / damaged entry and heads files: never a silently different state
 NoCrash == IsRestore => res.r.out # "crash"
+\* (a byte flipped inside a key file: the property asks for nothing but the absence of a crash)
+KeyDamaged(fs) == \E i \in DOMAIN fs : fs[i].t = "key" /\ fs[i].dmg # "no"
 NeverSilentlyDifferent ==
-  (IsRestore /\ res.r.out = "ok") =>
+  (IsRestore /\ res.r.out = "ok" /\ ~KeyDamaged(res.fed.files)) =>
       /\ res.r.keys = "same"
       /\ \A g \in arch.open : Intact(res.fed, g) => res.r.g[g] = arch.n[g]
 \* the export itself: both keys, and for every open group every entry and the current heads
